@@ -246,10 +246,15 @@ package filters
 //@ panics nothing
 //@ assigns nothing
 
+// size: element count of an array or slice (any element type), character count of a string,
+// zero for everything else (maps included, as in Liquid)
 //@ func values.Length
-//@ props C01 C15
+//@ props C01 C15 C16
 //@ panics nothing
 //@ assigns nothing
+//@ ensures arrays: isarr(kind(values.ToLiquid(value))) ==> result == pl_len(values.ToLiquid(value))
+//@ ensures strings: kind(values.ToLiquid(value)) == reflect.String ==> result == runecount(pl_str(values.ToLiquid(value)))
+//@ ensures others: !isarr(kind(values.ToLiquid(value))) && kind(values.ToLiquid(value)) != reflect.String ==> result == 0
 
 // truncate / truncatewords (C01, C16): no count or ellipsis makes them panic
 //@ func filter "truncate"
